@@ -45,6 +45,13 @@ type CommissionScheduleRules struct {
 	MinCommissionRate quantity.Quantity `json:"min_commission_rate"`
 }
 
+// isAligned returns true iff the given epoch is one at which commission rates and rate bounds are
+// allowed to change. A rate change interval of zero (the value of an unset field) imposes no
+// alignment.
+func (r *CommissionScheduleRules) isAligned(epoch beacon.EpochTime) bool {
+	return r.RateChangeInterval == 0 || epoch%r.RateChangeInterval == 0
+}
+
 // CommissionRateStep sets a commission rate and its starting time.
 type CommissionRateStep struct {
 	// Epoch when the commission rate will go in effect.
@@ -153,7 +160,7 @@ func (cs *CommissionSchedule) validateComplexity(rules *CommissionScheduleRules)
 // validateNondegenerate detects degenerate steps.
 func (cs *CommissionSchedule) validateNondegenerate(rules *CommissionScheduleRules) error {
 	for i, step := range cs.Rates {
-		if step.Start%rules.RateChangeInterval != 0 {
+		if !rules.isAligned(step.Start) {
 			return fmt.Errorf("rate step %d start epoch %d not aligned with commission rate change interval %d", i, step.Start, rules.RateChangeInterval)
 		}
 		if i > 0 && step.Start <= cs.Rates[i-1].Start {
@@ -168,7 +175,7 @@ func (cs *CommissionSchedule) validateNondegenerate(rules *CommissionScheduleRul
 	}
 
 	for i, step := range cs.Bounds {
-		if step.Start%rules.RateChangeInterval != 0 {
+		if !rules.isAligned(step.Start) {
 			return fmt.Errorf("bound step %d start epoch %d not aligned with commission rate change interval %d", i, step.Start, rules.RateChangeInterval)
 		}
 		if i > 0 && step.Start <= cs.Bounds[i-1].Start {
